@@ -2137,7 +2137,12 @@ impl<'a, S: RowSource> Executor<'a> for DynamicExecutor<'a, S> {
             DynamicExecutor::Filter(child, predicate) => loop {
                 match child.next()? {
                     Some(row) => {
-                        if predicate.evaluate(&row) {
+                        crate::sql::predicate::take_integer_overflow();
+                        let keep = predicate.evaluate(&row);
+                        if let Some(what) = crate::sql::predicate::take_integer_overflow() {
+                            eyre::bail!("integer overflow in {}", what);
+                        }
+                        if keep {
                             return Ok(Some(row));
                         }
                     }
@@ -2158,7 +2163,11 @@ impl<'a, S: RowSource> Executor<'a> for DynamicExecutor<'a, S> {
             },
             DynamicExecutor::ProjectExpr(child, projection, arena) => match child.next()? {
                 Some(row) => {
+                    crate::sql::predicate::take_integer_overflow();
                     let values = projection.evaluate(&row);
+                    if let Some(what) = crate::sql::predicate::take_integer_overflow() {
+                        eyre::bail!("integer overflow in {}", what);
+                    }
                     let projected: &'a [Value<'a>] = arena.alloc_slice_fill_iter(
                         values.into_iter().map(|opt_val| match opt_val {
                             Some(v) => ExecutorRow::clone_value_to_arena(&v, arena),
